@@ -11,7 +11,7 @@ class C01(OptCheck):
     technique = "Coq proof: a successful parse of the model equals the spec's assignment of an item list whose rendering is the argument vector (refinement parse = explain;wf;assignment) + differential run aimed at bundles"
     level_text = "Theorem C01_parse_accounts_for_every_token (for ALL declarations, environments, object states and argument vectors: a successful parse's vector IS the rendering of a legal item list and the result IS that list's assignment) via the refinement parse = explain;wf_items;assignment (parse_refines, ~4000 lines of Coq) and render_explain; bundle letters are declared toggles; three-outcome theorem. Tied to /repo by extraction-based differential runs aimed at bundles (undeclared / option letters at every position)"
     level_note = "trusted: Coq kernel; ExtrOcamlBasic extraction + OCaml; the differential harness (generators, C++ driver through the public API under ASan/UBSan, canonical observation lines); gen/tr_vocab.py for C11. Theorem hypotheses: wf_decl (names non-empty, no '=', not starting with '-', pairwise distinct; letters neither '-' nor '='), no_clash (known finding K1: no toggle foo next to anything called no-foo), aligned state (every reachable state is: C14_reachable_aligned). Modelled, not verified: std::map name order, std::multiset::count on letters, std::getline at ';', getenv, object lifetimes, int overflow of counts (model uses Z), operator>> for typed access (exercised with as<long> on decimal texts only). The tie model=code is bounded-exhaustive + sampled, not proved"
-    rule = ("core stream + bundle stream: for several declarations every bundle of 2-4 letters over declared toggle letters, undeclared "
+    rule = ("core stream (exhaustive short vectors over declaration-relative tokens for 12 declaration shapes; random vectors, random declarations and environments; 'steps' histories on ONE long-lived parser object — several calls, environment changes, further declarations, move construction, move assignment from a differently declared parser — each call also made on a freshly built identical parser; declarations spread over named groups in a hash-derived order) + bundle stream: for several declarations every bundle of 2-4 letters over declared toggle letters, undeclared "
             "letters and option/multi-option letters at every position, repeated letters, each alone / followed by a value token / followed "
             "by another option; non-trivial = at least one token; distinct = distinct case line")
 
